@@ -285,7 +285,7 @@ def dist_job(metric, dtype, rows, feats, with_out=False):
             out['out'] = results[0]
             out['violated'] = sorted(set(bad))
             if bad == ['value-differs-from-exact-%s' % metric]:
-                out['signature'] = '%s:%s:wrong-value(integer overflow in the C arithmetic)' % (metric, dtype)
+                out['signature'] = '%s:%s:wrong-value' % (metric, dtype)
             out['skip_compare'] = True
             return out
         if exc is not None:
@@ -547,6 +547,10 @@ def jobs_for(prop, tier):
             add('dist_job', '%s[%s,2x2,out]' % (metric, dts[0]), metric=metric, dtype=dts[0], rows=2, feats=2, with_out=True)
             add('dist_job', '%s[%s,1x1,out]' % (metric, dts[-1]), metric=metric, dtype=dts[-1], rows=1, feats=1, with_out=True)
             add('dist_job', '%s[%s,2x1,strided-out]' % (metric, dts[0]), metric=metric, dtype=dts[0], rows=2, feats=1, with_out='strided')
+    if prop == 'C19':
+        # the result must not depend on what the supplied out= buffer held before the call (it is pre-filled with 7.0)
+        for metric, dt in (('euclidean', 'float64'), ('manhattan', 'float64'), ('manhattan', 'int16'), ('hamming', 'uint8')):
+            add('dist_job', '%s[%s,2x2,out buffer holds old values]' % (metric, dt), metric=metric, dtype=dt, rows=2, feats=2, with_out=True)
     if prop in ('C13', 'C19'):
         for metric in ('euclidean', 'manhattan', 'hamming'):
             for xr, yr, outr in ((2, 1, None), (2, 1, 1), (1, 1, None), (3, 1, None), (2, 2, None), (2, 1, 2)):
